@@ -18,6 +18,8 @@ func propC16(c *Check) {
 	c.Rule("R3", "never empty: a removal is queued only after the remaining-member count (voters + proposer − queued removals, decremented for this one) is still >= 1")
 	c.Rule("R4", "election: past the period/timeout guard every success path increments the epoch once, sets LastElected = block time and stores the relayer; a removed proposer is replaced by the first remaining voter which leaves the voter list; an elected proposer is swapped with a voter; the queues are applied then cleared")
 	c.Rule("R5", "writers of Relayer, Voters and Queue")
+	c.Rule("R6", "members are distinct: a voter record created at run time is stored only when its address is absent and after the existing voters were consulted with the new vote key (a branch on a lookup that receives the key and reads the voter records)")
+	c.freshVotersAreDistinct("R6")
 
 	nv := p.MustFn("x/relayer/keeper.msgServer.NewVoter")
 	ws := p.writeSites(nv)
